@@ -22,8 +22,32 @@ static void out_regime(void)
   outs(buf);
 }
 
+/* capture of the operands of the multiplications a routine calls directly (depth 1): the evaluation points of Toom-3 */
+static __thread int cap_on, cap_depth, cap_n; static __thread mpz_t cap_x[16], cap_y[16];
+static void cap_record(mp_srcptr x, mp_size_t xn, mp_srcptr y, mp_size_t yn)
+{
+  if (!cap_on || cap_depth != 1 || cap_n >= 16) return;
+  mpz_init(cap_x[cap_n]); mpz_init(cap_y[cap_n]);
+  mpz_import(cap_x[cap_n], (size_t)xn, -1, 8, 0, 0, x); mpz_import(cap_y[cap_n], (size_t)yn, -1, 8, 0, 0, y); cap_n++;
+}
 #define WRAPV(sym, bit, proto, args) \
-  void __real_##sym proto; void __wrap_##sym proto { regime |= 1UL << (bit); __real_##sym args; }
+  void __real_##sym proto; void __wrap_##sym proto { regime |= 1UL << (bit); CAP_##bit; cap_depth++; __real_##sym args; cap_depth--; }
+#define CAP_R_BASECASE cap_record(u, un, v, vn)
+#define CAP_R_KARA cap_record(x, n, y, n)
+#define CAP_R_TOOM3N cap_record(x, n, y, n)
+#define CAP_R_TOOM3
+#define CAP_R_TOOM32
+#define CAP_R_TOOM42
+#define CAP_R_TOOM4N
+#define CAP_R_TOOM4
+#define CAP_R_TOOM53
+#define CAP_R_TOOM8H
+#define CAP_R_SQRBASE
+#define CAP_R_KARASQR
+#define CAP_R_TOOM3SQR
+#define CAP_R_TOOM4SQR
+#define CAP_R_TOOM8SQR
+#define CAP_R_FFTMAIN
 WRAPV(__gmpn_mul_basecase, R_BASECASE, (mp_ptr r, mp_srcptr u, mp_size_t un, mp_srcptr v, mp_size_t vn), (r, u, un, v, vn))
 WRAPV(__gmpn_kara_mul_n, R_KARA, (mp_ptr r, mp_srcptr x, mp_srcptr y, mp_size_t n, mp_ptr t), (r, x, y, n, t))
 WRAPV(__gmpn_toom3_mul_n, R_TOOM3N, (mp_ptr r, mp_srcptr x, mp_srcptr y, mp_size_t n, mp_ptr t), (r, x, y, n, t))
@@ -57,6 +81,22 @@ static mp_limb_t limbs_mod(mp_srcptr p, mp_size_t n, mp_limb_t m)
 }
 void out_residues(mp_srcptr p, mp_size_t n) { for (int i = 0; i < 4; i++) outul(limbs_mod(p, n, MODS[i])); }
 
+/* mpn_toom3_points n A B : mpn_toom3_mul_n called directly; prints the operands of its five recursive products in call order
+   (v1, vm1, v2, v0, vinf: the evaluation points as the code formed them) and the product */
+static void op_toom3_points(int argc, char **argv)
+{
+  (void)argc; mp_size_t n = arg_l(argv[1]);
+  mp_ptr ap = gbuf_alloc(n), bp = gbuf_alloc(n), cp = gbuf_alloc(2 * n), tp = gbuf_alloc(4 * n + 300);
+  parse_limbs(argv[2], ap, n); parse_limbs(argv[3], bp, n);
+  cap_on = 1; cap_depth = 0; cap_n = 0;
+  mpn_toom3_mul_n(cp, ap, bp, n, tp);          /* wrapped: depth becomes 1 inside */
+  cap_on = 0;
+  outl(cap_n);
+  for (int i = 0; i < cap_n; i++) { out_zv(cap_x[i]); out_zv(cap_y[i]); mpz_clear(cap_x[i]); mpz_clear(cap_y[i]); }
+  out_limbs(cp, 2 * n);
+  if (!gbuf_ok(ap, n) || !gbuf_ok(bp, n) || !gbuf_ok(cp, 2 * n) || !gbuf_ok(tp, 4 * n + 300)) outs("REDZONE");
+  gbuf_free(ap); gbuf_free(bp); gbuf_free(cp); gbuf_free(tp);
+}
 /* mpn_mul_1 n U v ovl(0 sep,1 in place) */
 static void op_mul_1(int argc, char **argv)
 {
@@ -191,7 +231,7 @@ static void do_zaorsmul_ui(char **argv, int sub)
 static void op_zaddmul_ui(int c, char **v) { (void)c; do_zaorsmul_ui(v, 0); }
 static void op_zsubmul_ui(int c, char **v) { (void)c; do_zaorsmul_ui(v, 1); }
 
-const op_t ops_mul[] = {
+const op_t ops_mul[] = { {"mpn_toom3_points", op_toom3_points},
   {"mpn_mul_1", op_mul_1}, {"mpn_addmul_1", op_addmul_1}, {"mpn_submul_1", op_submul_1},
   {"mpn_mul", op_mul}, {"mpn_mul_big", op_mul_big}, {"mpn_mul_n", op_mul_n}, {"mpn_mul_n_big", op_mul_n_big},
   {"mpn_sqr", op_sqr}, {"mpn_sqr_big", op_sqr_big}, {"mpn_mul_basecase", op_basecase}, {"mpn_kara_mul_n", op_kara},
